@@ -300,11 +300,14 @@ def check_dims(node, v):
         if isinstance(v, list):
             raise Undemanded("array assigned to scalar node")
         return
-    if not isinstance(v, list):
-        raise Undemanded("scalar assigned to array node")
     sh = shape(v)
-    if len(sh) != len(node.dims):
-        raise Undemanded("rank differs from declaration")
+    if len(sh) > len(node.dims):
+        raise Undemanded("value has more axes than declared")
+    if len(sh) < len(node.dims):
+        # a declared dimension the value does not have cannot lie within finite bounds
+        if any(lo is not None or hi is not None for lo, hi in node.dims[len(sh):]):
+            raise Reject("declared dimension missing in the value")
+        raise Undemanded("missing dimension is declared without bounds")
     for n, (lo, hi) in zip(sh, node.dims):
         if lo is not None and n < lo:
             raise Reject("dimension below lower bound")
